@@ -20,7 +20,7 @@ m = {
  ],
  "checks": [],
  "not_applicable": NA,
- "notes": "Every check is ./check <id> --tier quick|thorough; see DESIGN.md. Known findings / fixed defects: known_findings.json."
+ "notes": "Every check is ./check <id> --tier quick|thorough; see DESIGN.md. Known findings / fixed defects: known_findings.json. Beyond the listed properties: ./check REG (spec/CacheRegistry.tla, the module-level registry of named caches; evidence in evidence_extra/REG.json; DESIGN.md 9.9). Seeded changes and the checks that catch them: seeded/CATCH_MATRIX.md."
 }
 for c in CHECKS:
     pid = c["property_id"]
